@@ -85,6 +85,10 @@ class ActionSummary(object):
     # rolled back. It must use the pre-rename names, or it targets a name that no longer exists
     # and undo fails. Resolve them now, before root_name() rewrites table_id/col_id below.
     table_delta = self._tables[table_id]
+    # The presence maps live in table_delta, which is keyed by the LATEST name (the defunct name for a removed
+    # table). Keep that key: under the root name nothing is found for a removed table, and rows added in this
+    # bundle would then be "restored" on undo.
+    delta_key = table_id
     orig_table_id = self._table_renames.original_name(table_id)
     orig_col_id = table_delta.column_renames.original_name(col_id)
     table_id = root_name(table_id)
@@ -105,7 +109,7 @@ class ActionSummary(object):
       return
 
     ## Maybe add one or two undo update actions for rows that existed before the change.
-    row_ids_before = self.filter_out_new_rows(table_id, full_row_ids)
+    row_ids_before = self.filter_out_new_rows(delta_key, full_row_ids)
 
     if defunct:
       preserved_row_ids = []
